@@ -213,4 +213,7 @@ class ListField(Field):
         """
         if self.field is None or isinstance(self.field, AnyField):
             return value
+        if isinstance(self.field, Field) and isinstance(value, (list, tuple)):
+            # undo the item encoding done by to_basic() before the items are validated
+            value = [self.field.to_python(cfg, item) for item in value]
         return ListProxy(cfg, self, value)
